@@ -108,6 +108,12 @@ var guardSpecs = []guardSpec{
 	{"useNamespaceGuard", "pkg/controller.v1beta1/experiment/manifest/generator.go", "applyParameters", `stmt=:placeHolderToValueMap[param.Name] = trialNamespace`, tplAtoms, tplParams, true},
 	{"useKindGuard", "pkg/controller.v1beta1/experiment/manifest/generator.go", "applyParameters", `stmt=:placeHolderToValueMap[param.Name] = trialSpec.GetKind()`, tplAtoms, tplParams, true},
 	{"useAPIVersionGuard", "pkg/controller.v1beta1/experiment/manifest/generator.go", "applyParameters", `stmt=:placeHolderToValueMap[param.Name] = trialSpec.GetAPIVersion()`, tplAtoms, tplParams, true},
+	{"mapByParamGuard", "pkg/suggestion/v1beta1/goptuna/service.go", "syncTrials", `findGoptunaTrialIDByParam(`, gsAtoms, gsParams, true},
+	{"recordMappingGuard", "pkg/suggestion/v1beta1/goptuna/service.go", "syncTrials", `stmt:s.trialMapping[katibTrialName] = gtrialID`, gsAtoms, gsParams, true},
+	{"setTrialValueGuard", "pkg/suggestion/v1beta1/goptuna/service.go", "syncTrials", `s.study.Storage.SetTrialValue(`, gsAtoms, gsParams, true},
+	{"setTrialStateGuard", "pkg/suggestion/v1beta1/goptuna/service.go", "syncTrials", `s.study.Storage.SetTrialState(`, gsAtoms, gsParams, true},
+	{"errFindGuard", "pkg/suggestion/v1beta1/goptuna/service.go", "syncTrials", `klog.Errorf("Failed to find Goptuna Trial ID`, gsAtoms, gsParams, true},
+	{"syncErrorGuard", "pkg/suggestion/v1beta1/goptuna/service.go", "syncTrials", `stmt=:return err`, gsAtoms, gsParams, true},
 	{"addFinalizerGuard", "pkg/controller.v1beta1/trial/trial_controller_util.go", "needUpdateFinalizers", "append(pendingFinalizers, cleanMetricsFinalizer)", finAtoms, finParams, false},
 	{"removeFinalizerGuard", "pkg/controller.v1beta1/trial/trial_controller_util.go", "needUpdateFinalizers", "stmt:finalizers := []string{}", finAtoms, finParams, false},
 	{"dbCleanupGuard", "pkg/controller.v1beta1/trial/trial_controller_util.go", "updateFinalizers", "r.DeleteTrialObservationLog(instance)", finAtoms, finParams, false},
@@ -253,6 +259,12 @@ var tplAtoms = map[string]string{
 }
 var tplParams = []string{"failed1", "failed2", "specNil", "plainRef", "found1", "found2", "found3", "indexedRef", "badIndex", "keyName", "keyNamespace",
 	"keyKind", "keyAPIVersion", "keyAnnotations", "keyLabels"}
+
+var gsAtoms = map[string]string{
+	"found": "found", "err != nil": "failed#", "gtrial.State.IsFinished()": "finished", "ktrial.State == gtrial.State": "sameState",
+	"ktrial.State == goptuna.TrialStateComplete": "complete",
+}
+var gsParams = []string{"found", "failed1", "failed2", "failed3", "failed4", "finished", "sameState", "complete"}
 
 var finAtoms = map[string]string{
 	"trial.ObjectMeta.DeletionTimestamp.IsZero()": "(!deleting)", "instance.ObjectMeta.DeletionTimestamp.IsZero()": "(!deleting)",
